@@ -168,14 +168,17 @@ def _shrink_and_classify(ctx, hist, tgt_op, base):
         if k <= len(hist):
             cands.append(hist[len(hist) - k:])
     cands.append(hist)
-    seen = set()
+    uniq, seen = [], set()
     for h in cands:
         key = json.dumps(h)
-        if key in seen:
-            continue
-        seen.add(key)
-        ops = list(h)
-        r = _sub(["history", json.dumps({"ops": ops, "target": tgt_op[1], "observe": tgt_op[0]})])
+        if key not in seen:
+            seen.add(key)
+            uniq.append(list(h))
+    with cf.ThreadPoolExecutor(8) as ex:
+        futs = [ex.submit(_sub, ["history", json.dumps({"ops": ops, "target": tgt_op[1], "observe": tgt_op[0]})])
+                for ops in uniq]
+        res = [fu.result() for fu in futs]
+    for ops, r in zip(uniq, res):  # shortest first
         if r["final"]["kind"] != "absent" and _strip(r["final"]) != _strip(base):
             r2 = _sub(["history", json.dumps({"ops": ops, "target": tgt_op[1], "observe": tgt_op[0],
                                               "tmp_reset_before_target": True})])
